@@ -12,6 +12,7 @@
    implementation (correspondence). *)
 From Coq Require Import List ZArith NArith Bool.
 Import ListNotations.
+Require Import Gram.Model.Term Gram.Model.ParserPost Gram.Proofs.ReassocProofs.
 Require Import Gram.Model.Token Gram.Model.Grammar Gram.Gen.ParserSkeleton Gram.Gen.GrammarY Gram.Model.Parser Gram.Proofs.ParserProofs Gram.Proofs.SoundProofs.
 
 Theorem C07_skeleton_matches_grammar : forallb compat_nt all_nts = true.
@@ -58,3 +59,81 @@ Example C07_sentence_example :
   let tk k := {| pk := k; ps := 0; pe := 0; pname := [120%N]; pz := 1 |} in
   exists t, fst (fst (parse_stage1 [tk KIdentifier; tk KEquals; tk KIntegerLiteral; tk KSemicolon; tk KIdentifier] true)) = S1Tree t.
 Proof. eexists. vm_compute. reflexivity. Qed.
+
+(* Tree shape: the re-association passes (mirror of reassociate_applications / _products_and_quotients /
+   _sums_and_differences) are a three-line specification - flatten the right spine of unparenthesised nodes of
+   one kind from the root, every operand being re-associated on its own, and fold the operands to the LEFT -
+   on every tree the parser model hands them (Proofs/ReassocProofs.v). `spec_all` reads nothing of the tree
+   but constructors, names, literals, operators and which nodes were parenthesised; parentheses are honoured
+   (a parenthesised node is one operand) and the in-order sequence of leaves and operators is unchanged. *)
+Theorem C07_reassociate_is_left_fold : forall toks memo t m s,
+  parse_stage1 toks memo = (S1Tree t, m, s) ->
+  strip (reassociate t) = spec_all (gstrip t) /\ pyield (reassociate t) = pyield t.
+Proof. exact parser_reassociate_spec. Qed.
+Check C07_reassociate_is_left_fold : forall toks memo t m s,
+  parse_stage1 toks memo = (S1Tree t, m, s) ->
+  strip (reassociate t) = spec_all (gstrip t) /\ pyield (reassociate t) = pyield t.
+Print Assumptions C07_reassociate_is_left_fold.
+
+(* one pass on any tree without error nodes whose left operands are atoms of the pass's kind *)
+Theorem C07_reassoc_spec : forall k t, has_error_node t = false -> rspine k (gstrip t) = true ->
+  strip (reassoc k None t) = spec k (gstrip t).
+Proof. exact reassoc_spec. Qed.
+Check C07_reassoc_spec : forall k t, has_error_node t = false -> rspine k (gstrip t) = true ->
+  strip (reassoc k None t) = spec k (gstrip t).
+Print Assumptions C07_reassoc_spec.
+
+(* every tree of the parser model has that shape, and no error node *)
+Theorem C07_parser_tree_wf : forall toks memo t m s, parse_stage1 toks memo = (S1Tree t, m, s) ->
+  wf (gstrip t) = true /\ has_error_node t = false.
+Proof. intros toks memo t m s H. exact (conj (parser_tree_wf _ _ H) (stage1_tree_noerr _ _ H)). Qed.
+Check C07_parser_tree_wf : forall toks memo t m s, parse_stage1 toks memo = (S1Tree t, m, s) ->
+  wf (gstrip t) = true /\ has_error_node t = false.
+Print Assumptions C07_parser_tree_wf.
+
+(* a - b - c is (a - b) - c, a - (b - c) stays, a / b * c is (a / b) * c, f x y is (f x) y, f (g x) stays:
+   for all names and all source ranges *)
+Theorem C07_left_associative : forall i1 i2 ia ib ic a b c,
+  (pgroup i2 = false ->
+   strip (reassoc ChAdd None (PBin i1 ODiff (PVar ia a) (PBin i2 ODiff (PVar ib b) (PVar ic c)))) =
+   ABin tt ODiff (ABin tt ODiff (V a) (V b)) (V c)) /\
+  (pgroup i2 = true ->
+   strip (reassoc ChAdd None (PBin i1 ODiff (PVar ia a) (PBin i2 ODiff (PVar ib b) (PVar ic c)))) =
+   ABin tt ODiff (V a) (ABin tt ODiff (V b) (V c))) /\
+  (pgroup i2 = false ->
+   strip (reassoc ChMul None (PBin i1 OQuot (PVar ia a) (PBin i2 OProd (PVar ib b) (PVar ic c)))) =
+   ABin tt OProd (ABin tt OQuot (V a) (V b)) (V c)) /\
+  (pgroup i2 = false ->
+   strip (reassoc ChApp None (PApp i1 (PVar ia a) (PApp i2 (PVar ib b) (PVar ic c)))) =
+   AApp tt (AApp tt (V a) (V b)) (V c)) /\
+  (pgroup i2 = true ->
+   strip (reassoc ChApp None (PApp i1 (PVar ia a) (PApp i2 (PVar ib b) (PVar ic c)))) =
+   AApp tt (V a) (AApp tt (V b) (V c))).
+Proof.
+  intros. exact (conj (@ex_sub_sub i1 i2 ia ib ic a b c) (conj (@ex_sub_paren i1 i2 ia ib ic a b c)
+    (conj (@ex_div_mul i1 i2 ia ib ic a b c) (conj (@ex_app_app i1 i2 ia ib ic a b c) (@ex_app_paren i1 i2 ia ib ic a b c))))).
+Qed.
+Check C07_left_associative : forall i1 i2 ia ib ic a b c,
+  (pgroup i2 = false ->
+   strip (reassoc ChAdd None (PBin i1 ODiff (PVar ia a) (PBin i2 ODiff (PVar ib b) (PVar ic c)))) =
+   ABin tt ODiff (ABin tt ODiff (V a) (V b)) (V c)) /\
+  (pgroup i2 = true ->
+   strip (reassoc ChAdd None (PBin i1 ODiff (PVar ia a) (PBin i2 ODiff (PVar ib b) (PVar ic c)))) =
+   ABin tt ODiff (V a) (ABin tt ODiff (V b) (V c))) /\
+  (pgroup i2 = false ->
+   strip (reassoc ChMul None (PBin i1 OQuot (PVar ia a) (PBin i2 OProd (PVar ib b) (PVar ic c)))) =
+   ABin tt OProd (ABin tt OQuot (V a) (V b)) (V c)) /\
+  (pgroup i2 = false ->
+   strip (reassoc ChApp None (PApp i1 (PVar ia a) (PApp i2 (PVar ib b) (PVar ic c)))) =
+   AApp tt (AApp tt (V a) (V b)) (V c)) /\
+  (pgroup i2 = true ->
+   strip (reassoc ChApp None (PApp i1 (PVar ia a) (PApp i2 (PVar ib b) (PVar ic c)))) =
+   AApp tt (V a) (AApp tt (V b) (V c))).
+Print Assumptions C07_left_associative.
+
+(* from tokens through the parser model and the three passes, inside Coq: a - b + c - d and
+   a - b * c / d - f x y *)
+Theorem C07_chains_from_tokens : ltac:(let T := type of ReassocExamples.tok_mixed in exact T).
+Proof. exact ReassocExamples.tok_mixed. Qed.
+Check C07_chains_from_tokens : _ /\ _.
+Print Assumptions C07_chains_from_tokens.
